@@ -151,6 +151,14 @@ CHECKS = {
         note="Own labels are inputs.  A difference that is only a reordering of product factors is MODEL-DRIFT, not a violation.  CommonUnit "
              "labels (EQUIV{...}) are not yet in the grammar model.",
         technique="TLA+ label grammar evaluated by TLC on read-outs of the real labels (trace validation by string equality)", ref="6/C18"),
+    "C16": dict(
+        text="Availability of a constant in (unit, type) is the C11 predicate applied to the exact ratio C/u (MagBig.tla).  For the 9 library "
+             "constants x scaled coherent units and ~125 generated constants over the TLC-emitted magnitude grid, the ratio is read out as a "
+             "prime-power pack and can_store_value_in<T>, C.in<T>(u), C.as<T>(u), the implicit conversion to Quantity<u,T> are evaluated for 11 "
+             "types; TLC decides availability <=> representable and exactness of the value; unavailable triples are compiled as probes (three "
+             "forms) that must fail; number/quantity x constant products and quotients keep the stored number bit-for-bit with the right unit.",
+        note="'Available' = the use compiles.  Floating tolerance as C11.",
+        technique="C11's TLA+ magnitude evaluation applied to constant/unit ratios (trace validation by TLC) + failing probes + raw-value mixin checks", ref="6/C16"),
 }
 
 
